@@ -283,6 +283,27 @@ def corruptions(rng, doc, root_b64, sec):
         d = copy.deepcopy(doc)
         el(d, "quote")["message"] = (sec["quote"] + tail).hex()          # bytes appended after signing
         out.append(("longquote-unsigned-tail", d, root_b64, NOW))
+    # the bound hash present in the signed report data, but not where the structure puts it (offset 0 of the
+    # 64-byte report data): messages genuinely signed by the right key whose report data carries the hash at
+    # another offset
+    if "att" in sec and isinstance(sec["qe"].curve, ec.SECP256R1):
+        for off in (1, 16, 32):
+            at = el(doc, "attestation")
+            want = hashlib.sha256(bytes.fromhex(at["key"])[-64:] + bytes.fromhex(at["auth_data"])).digest()
+            body = bytearray(bytes.fromhex(at["message"]))
+            body[320:384] = rb(rng, 64)
+            body[320 + off:320 + off + 32] = want
+            d = copy.deepcopy(doc)
+            el(d, "attestation")["message"] = bytes(body).hex()
+            el(d, "attestation")["signature"] = sign_digest(sec["qe"], hashlib.sha256(bytes(body)).digest()).hex()
+            out.append(("key-hash-at-offset-%d" % off, d, root_b64, NOW))
+            q = bytearray(sec["quote"])
+            q[48 + 320:48 + 384] = rb(rng, 64)
+            q[48 + 320 + off:48 + 320 + off + 32] = hashlib.sha256(sec["custom"]).digest()
+            d = copy.deepcopy(doc)
+            el(d, "quote")["message"] = bytes(q).hex()
+            el(d, "quote")["signature"] = sign_digest(sec["att"], hashlib.sha256(bytes(q)).digest()).hex()
+            out.append(("custom-hash-at-offset-%d" % off, d, root_b64, NOW))
     # re-parenting
     d = copy.deepcopy(doc)
     el(d, "quote")["signed_by"] = "quoting_enclave"
